@@ -56,3 +56,12 @@ Print Assumptions C02_grease_dichotomy.
 Theorem C02_grease_off : forall c m, grease 0 c m = Ok m.
 Proof. reflexivity. Qed.
 Print Assumptions C02_grease_off.
+
+(* ---- tie to the source: the integer literals of the functions this property's model stands for
+   (private constants, bounds, unit factors; the files are SiteMap.files_C02) are today the ones the
+   model was written against. Gen/Sites.v num_literals is regenerated from /repo on every run; a
+   changed, added or removed number in a modelled function breaks this obligation ---- *)
+Require RV.Gen.Sites RV.Model.SiteMap.
+Theorem C02_literals_reviewed : RV.Model.SiteMap.literals_ok RV.Model.SiteMap.files_C02.
+Proof. repeat constructor. Qed.
+Print Assumptions C02_literals_reviewed.
